@@ -117,7 +117,11 @@ f('C13', 'center-within-1e-8-of-origin-ignored', 'flip_and_move_plane_geometry s
 
 f('C14', 'loft-periodic-rounded-knots-out-of-range', 'loft of sections that include periodic curves with non-dyadic knot placement raises ValueError (out of range) inside make_splines_identical: after reparam/lower_periodic a knot is 1+1ulp and BSplineBasis.continuity rejects it without tolerance (same root cause as C12 periodic-rounded-ghost-knots-out-of-range)', False, {'call': 'surface_factory.loft(six curves, two of them Curve(BSplineBasis(3,[0,1,3,4,6,7,9],1), 2 cps)) -- replay spec in DESIGN §15'})
 
-FIXED_COMMITS = {('C10', 'constructor-indexerror-short-periodic'): '2fd5054', ('C12', 'periodic-rounded-ghost-knots-out-of-range'): '6ceb42c', ('C14', 'loft-periodic-rounded-knots-out-of-range'): '6ceb42c', ('C13', 'three-point-arc-small-radius-absolute-tolerance'): '0a30caf', ('C04', 'periodic-insert-end-indexerror'): '482ca58', ('C04', 'periodic-small-basis-geometry'): 'b253cc6', ('C07', 'split-periodic-small-basis'): 'b253cc6', ('C07', 'split-periodic-point-at-end'): '482ca58', ('C07', 'subdivide-periodic-direction'): '482ca58', ('C08', 'periodic-insert-small-basis'): 'b253cc6', ('C10', 'periodic-small-basis-structure'): 'b253cc6', ('C12', 'periodic-small-basis-geometry'): 'b253cc6', ('C12', 'periodic-insert-small-basis'): 'b253cc6', ('C15', 'const-par-curve-periodic-few-functions'): 'b253cc6', ('C15', 'const-par-curve-periodic-end'): '2c81ce6', ('C19', 'periodic-seam-split'): '482ca58+b253cc6', ('C02', 'curve-evaluate-rejects-tensor-keyword'): '3ae9973', ('C03', 'rational-surface-d-not-tuple-returns-zeros'): 'cd5762c', ('C03', 'rational-derivative-order-zero-returns-zero'): '9f6e350', ('C03', 'rational-closed-form-ignores-above-list'): 'ea90458+cd5762c', ('C03', 'rational-left-limit-at-discontinuity'): '9f6e350+ea90458', ('C05', 'curve-raise-order-zero-returns-none'): '6ca09d8', ('C05', 'curve-dimension1-controlpoints-flattened'): '2d51429', ('C06', 'reverse-periodic-flip-only'): '4fe14f6', ('C06', 'swap-curve-returns-none'): '4f754a8', ('C09', 'infix-truediv-undefined'): '6773409', ('C11', 'extrude-mutates-operand'): 'c412e04', ('C11', 'section-point-view'): 'bb6c762', ('C11', 'swap-curve-returns-none'): '4f754a8', ('C11', 'curve-raise-order-0-returns-none'): '6ca09d8', ('C11', 'coons-patch-reverses-operands'): '9b346de', ('C13', 'three-point-arc-wrong-end'): 'b23deeb', ('C13', 'three-point-arc-nan-half-turn'): 'b0aae77', ('C13', 'arc-2pi-ignores-xaxis'): 'cf8223f', ('C13', 'cylinder-height-scaled-by-axis-norm'): '1445103', ('C14', 'manipulate-getargspec'): 'e2f7e0b', ('C14', 'lsq-flat-layout-reshape'): '3534aae', ('C14', 'volume-loft-two-sections'): 'f8de1df', ('C16', 'torsion-scalar-branch-uses-acceleration'): '274e74a', ('C16', 'rational-curve-one-element-list-derivative-squeezed'): 'ea90458', ('C16', 'integrate-periodic-collapse-single-fold'): 'fc5b45b', ('C17', 'nodeview-section-wrong-frame'): '8e83d07', ('C19', 'stl-2d-surface-resize'): '932700c', ('C19', 'g2-reversed-periodic-primitive'): '4fe14f6', ('C20', 'state-not-restored-on-exception'): 'cc29465', ('C20', 'g2-bounded-surface-writes-state'): '18d24da', ('C20', 'splinemodel-vertex-tolerance-not-from-state'): '580c3fa', ('C11', 'nutils-patch-mutates-operands'): 'a44d46f', ('C13', 'three-point-arc-half-turn-accuracy'): '3370f0f', ('C18', 'openfoam-boundary-count-without-internal-faces'): '7181bd9'}
+f('C10', 'constructor-accepts-tolerance-inversion-evaluate-segfault', 'BSplineBasis accepted knot vectors with decreases inside knot_tolerance and roll/make_periodic produced them by rounding; the compiled evaluator bisects the unsorted vector and reads outside its arrays (interpreter crash)', True, {'call': 'BSplineBasis(3,[0,5.551115123125783e-17,0,0.5,1,1,1]).evaluate(0.0)'})
+
+f('C13', 'signed-zero-normal-half-turn', 'rotate_local_x_axis took atan2(normal[1], normal[0]) = pi for a normal (-0., 0., 1.) (what np.cross gives for 2-D three-point input) while flip_and_move skipped the forward rotation: placed arcs/circles/ellipses/spheres/cylinders started half a turn off (found by the thorough tier)', True, {'call': 'circle_segment_from_three_points([-1,3.5],[1,4],[-2,3.75])'})
+
+FIXED_COMMITS = {('C13', 'signed-zero-normal-half-turn'): '3b9bc69', ('C10', 'constructor-accepts-tolerance-inversion-evaluate-segfault'): 'dd9406d', ('C10', 'constructor-indexerror-short-periodic'): '2fd5054', ('C12', 'periodic-rounded-ghost-knots-out-of-range'): '6ceb42c', ('C14', 'loft-periodic-rounded-knots-out-of-range'): '6ceb42c', ('C13', 'three-point-arc-small-radius-absolute-tolerance'): '0a30caf', ('C04', 'periodic-insert-end-indexerror'): '482ca58', ('C04', 'periodic-small-basis-geometry'): 'b253cc6', ('C07', 'split-periodic-small-basis'): 'b253cc6', ('C07', 'split-periodic-point-at-end'): '482ca58', ('C07', 'subdivide-periodic-direction'): '482ca58', ('C08', 'periodic-insert-small-basis'): 'b253cc6', ('C10', 'periodic-small-basis-structure'): 'b253cc6', ('C12', 'periodic-small-basis-geometry'): 'b253cc6', ('C12', 'periodic-insert-small-basis'): 'b253cc6', ('C15', 'const-par-curve-periodic-few-functions'): 'b253cc6', ('C15', 'const-par-curve-periodic-end'): '2c81ce6', ('C19', 'periodic-seam-split'): '482ca58+b253cc6', ('C02', 'curve-evaluate-rejects-tensor-keyword'): '3ae9973', ('C03', 'rational-surface-d-not-tuple-returns-zeros'): 'cd5762c', ('C03', 'rational-derivative-order-zero-returns-zero'): '9f6e350', ('C03', 'rational-closed-form-ignores-above-list'): 'ea90458+cd5762c', ('C03', 'rational-left-limit-at-discontinuity'): '9f6e350+ea90458', ('C05', 'curve-raise-order-zero-returns-none'): '6ca09d8', ('C05', 'curve-dimension1-controlpoints-flattened'): '2d51429', ('C06', 'reverse-periodic-flip-only'): '4fe14f6', ('C06', 'swap-curve-returns-none'): '4f754a8', ('C09', 'infix-truediv-undefined'): '6773409', ('C11', 'extrude-mutates-operand'): 'c412e04', ('C11', 'section-point-view'): 'bb6c762', ('C11', 'swap-curve-returns-none'): '4f754a8', ('C11', 'curve-raise-order-0-returns-none'): '6ca09d8', ('C11', 'coons-patch-reverses-operands'): '9b346de', ('C13', 'three-point-arc-wrong-end'): 'b23deeb', ('C13', 'three-point-arc-nan-half-turn'): 'b0aae77', ('C13', 'arc-2pi-ignores-xaxis'): 'cf8223f', ('C13', 'cylinder-height-scaled-by-axis-norm'): '1445103', ('C14', 'manipulate-getargspec'): 'e2f7e0b', ('C14', 'lsq-flat-layout-reshape'): '3534aae', ('C14', 'volume-loft-two-sections'): 'f8de1df', ('C16', 'torsion-scalar-branch-uses-acceleration'): '274e74a', ('C16', 'rational-curve-one-element-list-derivative-squeezed'): 'ea90458', ('C16', 'integrate-periodic-collapse-single-fold'): 'fc5b45b', ('C17', 'nodeview-section-wrong-frame'): '8e83d07', ('C19', 'stl-2d-surface-resize'): '932700c', ('C19', 'g2-reversed-periodic-primitive'): '4fe14f6', ('C20', 'state-not-restored-on-exception'): 'cc29465', ('C20', 'g2-bounded-surface-writes-state'): '18d24da', ('C20', 'splinemodel-vertex-tolerance-not-from-state'): '580c3fa', ('C11', 'nutils-patch-mutates-operands'): 'a44d46f', ('C13', 'three-point-arc-half-turn-accuracy'): '3370f0f', ('C18', 'openfoam-boundary-count-without-internal-faces'): '7181bd9'}
 FIXED = []
 if __name__ == '__main__':
     p = os.path.join(os.path.dirname(os.path.dirname(os.path.abspath(__file__))), 'known_findings.json')
